@@ -91,6 +91,26 @@ CHECKS = {
          "decoded back, COMMANDS_BY_ID.",
          TB + "the pinned tables and vectors (generated once from revision 8987de1 by tools/mkpinned.py, committed).",
          "Coq kernel equality of regenerated vs pinned tables + pinned wire vectors", "7 C19"),
+ "C10": ("Theorems: from ANY pending reassembly state, the frames of a message - for every split into fragments (first >= 4 bytes) - "
+         "deliver exactly that message once and leave nothing pending (a first-flagged frame starts afresh); sequences of messages after an "
+         "arbitrary interrupted prefix deliver exactly those messages; the concatenated encodings of well-formed frames parse to exactly "
+         "those frames (with C01: for every chunking); the transmitter's fragments are such frames (C09). Tie: large indications split "
+         "randomly / by the host's own transmitter, interrupted sequences, random chunking through the real uart+api pair.",
+         TB + "listeners observed through the public API; asyncio under a virtual clock.",
+         "Coq proof (induction over fragment lists) + differential correspondence", "7 C10"),
+ "C12": ("Theorems over the model of the listener table and frame_received's dispatch, for every history of {register waiter, register "
+         "callback, cancel, receive (bursts within one loop step), settle}: a received command resolves at most one waiter, the oldest "
+         "still-pending one with a matching pattern; no other future changes; exactly the matching callbacks are invoked, once each; a "
+         "waiter is resolved only by its own command type. Tie: histories through the real ZBOSS object under a virtual-time loop "
+         "(exhaustive short histories + random), independent monitor.",
+         TB + "asyncio Future/done-callback semantics as modelled by the settle event.",
+         "Coq proof (invariants over histories) + differential correspondence", "7 C12"),
+ "C17": ("Theorems: matches = field-wise wildcarding (iff characterisation), reflexive, transitive (same schema), deduplication "
+         "preserves the set of matched commands for every pattern list, never empties a non-empty list, a listener reacts exactly once "
+         "iff some pattern matches, registered once per header. Tie: exhaustive small universes (all pattern lists up to length 2/3 over "
+         "54 partial commands) + real classes through the real API; independent field-wise monitor.",
+         TB + "command parameter values compared by equality of their serialisations.",
+         "Coq proof + exhaustive small-universe and random differential correspondence", "7 C17"),
 }
 
 checks = []
